@@ -31,9 +31,13 @@ API:  statements_from_batches(batches) -> list[str];  check(batches, max_stateme
 from __future__ import annotations
 
 import math
+import os
 import re
+import shutil
+import signal
 import subprocess
 import sys
+import tempfile
 import time
 from dataclasses import dataclass, field
 from fractions import Fraction
@@ -49,14 +53,39 @@ STD_AXIOMS = {"propext", "Classical.choice", "Quot.sound"}
 ERR_KINDS = {"err:assert": "assert", "err:value": "value", "err:index": "index", "err:attr": "attr",
              "err:nan": "nan", "err:other": "other"}
 
-# Size limits: what the kernel evaluates within the time budget (measured, see the report / `--measure`).
-MAX_N = {"tab.compute.sa": 4, "tab.compute.sac": 4, "tab.compute.sam": 4, "tab.spec": 3, "tab": 5,
-         "bits": 6, "bits.struct": 5, "bits.pred": 4, "shp": 5, "shp.expl": 4}
+# Size limits: what the kernel evaluates comfortably (measured; every result carries the measured kernel seconds per
+# statement kind and size in `by_kind`).  n = 6 bound computations are feasible too (sa 11 s, sac 16 s, sam:1 37 s and
+# 2–3 GB of memory per statement): raise the three `tab.compute.*` entries to 6 to include them.
+MAX_N = {"tab.compute.sa": 5, "tab.compute.sac": 5, "tab.compute.sam": 5, "tab.spec": 4, "tab": 5,
+         "bits": 6, "bits.struct": 6, "bits.pred": 5, "shp": 6, "shp.expl": 5}
+# Estimated kernel seconds of one bound computation by computer and n (SAM: first + per extra repetition), and of
+# the cheap statement kinds by n.  Only used to keep a sample within its time budget; nothing depends on the values.
+COMPUTE_COST = {"sa": {0: .05, 1: .05, 2: .05, 3: .25, 4: .6, 5: 2.5, 6: 11.0},
+                "sac": {0: .05, 1: .05, 2: .05, 3: .25, 4: .8, 5: 3.5, 6: 16.0},
+                "sam": {0: .05, 1: .05, 2: .05, 3: .3, 4: 1.0, 5: 4.2, 6: 23.0}}
+SAM_ROUND_COST = {0: .02, 1: .02, 2: .02, 3: .12, 4: .8, 5: 3.0, 6: 12.0}
+SMALL_COST = {0: .05, 1: .05, 2: .05, 3: .05, 4: .1, 5: .3, 6: 1.5}
+
+
+def compute_cost(comp: str, n: int) -> float:
+    """`comp` is sa | sac | sam:r"""
+    if n > 6:
+        return 1e9
+    if comp.startswith("sam:"):
+        return COMPUTE_COST["sam"][n] + int(comp[4:]) * SAM_ROUND_COST[n]
+    return COMPUTE_COST[comp][n]
+
+
+def small_cost(n: int, factor: float = 1.0) -> float:
+    return factor * SMALL_COST.get(n, 5.0)
+
+
+_FLAT_COST = {"bits." + k for k in ("size", "players", "from", "single", "grand", "and", "or", "sub", "contains", "eq",
+                                    "disjoint", "andp", "orp", "subp", "addp", "hasplayer", "inverted", "exclude")} | {"shp.contrib"}
 MAX_OPS = 14              # operations in one `tab` segment
 MAX_COMPUTES = 3          # bound computations in one `tab` segment
 MAX_NAT = 10 ** 30        # coalition ids / players as literals
 MAX_BITS_LIST = 80        # longest expected list in a `bits` statement
-HEARTBEATS = 2_000_000    # per statement (deterministic time-out of the kernel), default is 200000
 
 
 class Unsupported(Exception):
@@ -180,11 +209,31 @@ class Candidate:
     kind: str                 # e.g. "tab.compute.sa", "tab.ops", "bits.subobj", "shp.shapley"
     n: int                    # player count (or a size measure) the statement is about
     prop: str                 # the Lean proposition
-    source: list = field(default_factory=list)     # protocol lines + observed answers it was made from
-    weight: int = 1           # rough cost class, used to keep the whole file within the time budget
+    source: list = field(default_factory=list)     # (protocol line, observed answer) pairs it was made from
+    origin: tuple | None = None                    # `tab`: the (`tab new …`, answer) or (`tab dump …`, answer) it starts from
 
-    def theorem(self, i: int) -> str:
-        return f"theorem kc_{i} : {self.prop} := by decide +kernel"
+    def shown(self, k: int = 8, width: int = 300) -> list[str]:
+        src = ([self.origin] if self.origin else []) + list(self.source)
+        if len(src) > k:
+            src = src[:2] + [("…", "…")] + src[-(k - 3):]
+        return [f"{ln[:width]}  ->  {ans[:width]}" for ln, ans in src]
+
+    def replay(self):
+        """a self-contained mini batch (lines, answers) that yields this statement again, when there is one"""
+        src = list(self.source)
+        if self.kind.startswith("tab."):
+            if not self.origin or not self.origin[0].startswith("tab new "):
+                return None
+            src = [self.origin] + src
+            if len({ln.split()[2] for ln, _ in src}) != 1:
+                return None
+        return [ln for ln, _ in src], [a for _, a in src]
+    cost: float = 0.1         # estimated kernel time in seconds (measured table below), used to stay within the budget
+
+    def theorem(self, name: str, negate: bool = False) -> str:
+        if negate:
+            return f"theorem {name} : ¬ ({self.prop}) := by decide +kernel"
+        return f"theorem {name} : {self.prop} := by decide +kernel"
 
 
 def parse_dump(ans: str):
@@ -208,14 +257,15 @@ def computer_lit(s: str) -> tuple[str, str]:
 class _Obj:
     """what is known about one driver object: where its current segment starts and what happened since"""
 
-    def __init__(self, start: str | None, n: int | None):
+    def __init__(self, start: str | None, n: int | None, origin: tuple | None = None):
         self.start = start            # Lean `Start` literal, None when the origin is not expressible
         self.n = n
-        self.ops: list[tuple[str, str, str]] = []       # (Lean Op, Lean Ans, source text)
+        self.origin = origin
+        self.ops: list[tuple[str, str, str]] = []       # (Lean Op, Lean Ans, (line, answer))
         self.kinds: list[str] = []
 
     def clone(self) -> "_Obj":
-        o = _Obj(self.start, self.n)
+        o = _Obj(self.start, self.n, self.origin)
         o.ops = list(self.ops)
         o.kinds = list(self.kinds)
         return o
@@ -232,7 +282,7 @@ def _ans_status(ans: str) -> str:
 def _tab_candidates(lines: list[str], answers: list[str], out: list[Candidate]) -> None:
     objs: dict[str, _Obj] = {}
 
-    def flush(name: str, final: bool) -> None:
+    def flush(name: str) -> None:
         """emit the pending segment of `name` (it ends with a dump, or the object goes away)"""
         o = objs.get(name)
         if o is None or o.start is None or not o.ops or o.n is None:
@@ -243,28 +293,30 @@ def _tab_candidates(lines: list[str], answers: list[str], out: list[Candidate]) 
         ncomp = sum(1 for k in o.kinds if k.startswith("compute") or k == "spec")
         if len(o.ops) > MAX_OPS or ncomp > MAX_COMPUTES:
             return
-        comp = [k for k in o.kinds if k.startswith("compute")]
-        kind = "tab." + (comp[0].replace("compute:", "compute.") if comp else ("spec" if "spec" in o.kinds else "ops"))
-        lim = MAX_N.get(kind, MAX_N["tab"])
-        if o.n > min(lim, MAX_N["tab"]):
+        comp = [k[len("compute:"):] for k in o.kinds if k.startswith("compute:")]
+        kind = "tab." + ("compute." + comp[0].split(":")[0] if comp else ("spec" if "spec" in o.kinds else "ops"))
+        if o.n > MAX_N.get(kind, MAX_N["tab"]):
             return
+        cost = small_cost(o.n, 0.5 + 0.1 * len(o.ops)) + sum(compute_cost(c, o.n) for c in comp) \
+            + 2.0 * small_cost(o.n) * o.kinds.count("spec")
         prop = (f"KC.tabRun {o.start}\n    [" + ",\n     ".join(op for op, _, _ in o.ops) + "]\n  = ["
                 + ",\n     ".join(a for _, a, _ in o.ops) + "]")
-        out.append(Candidate(kind, o.n, prop, [s for _, _, s in o.ops], weight=max(1, ncomp)))
+        out.append(Candidate(kind, o.n, prop, [s for _, _, s in o.ops], origin=o.origin, cost=cost))
 
     for ln, ans in zip(lines, answers):
         w = [x for x in ln.split(" ") if x]
         if len(w) < 2 or w[0] != "tab" or ans == "bad-op":
             continue
         op, args = w[1], w[2:]
-        src = f"{ln[:400]}  ->  {ans[:400]}"
+        src = (ln, ans)
         try:
             if op == "new" and len(args) == 2:
                 n = p_nat(args[1])
-                objs[args[0]] = _Obj(f"(.init {n})", n)
+                flush(args[0])
+                objs[args[0]] = _Obj(f"(.init {n})", n, src)
                 continue
             if op == "drop" and len(args) == 1:
-                flush(args[0], True)
+                flush(args[0])
                 objs.pop(args[0], None)
                 continue
             if op == "copy" and len(args) == 2:
@@ -309,9 +361,9 @@ def _tab_candidates(lines: list[str], answers: list[str], out: list[Candidate]) 
                 o.ops.append((f".bounds {up} {l_optnats(p_optnats(a[1]))} {l_rats(p_list(a[2], p_rat))}", _ans_status(ans), src))
                 o.kinds.append("set" if ans == "ok" else "status")
             elif op == "compute" and len(a) == 1:
-                lit, short = computer_lit(a[0])
+                lit, _ = computer_lit(a[0])
                 o.ops.append((f".compute {lit}", _ans_status(ans), src))
-                o.kinds.append("compute:" + short)
+                o.kinds.append("compute:" + a[0])
             elif op == "spec" and len(a) == 1:
                 lit, _ = computer_lit(a[0])
                 parts = ans.split(" ")
@@ -326,10 +378,11 @@ def _tab_candidates(lines: list[str], answers: list[str], out: list[Candidate]) 
                 o.kinds.append("dump")
                 if o.n is None:
                     o.n = n
-                flush(name, False)
+                flush(name)
                 # the next segment starts from the table this dump showed
                 o.start = (f"(.from {n} {l_bools(K)}\n      {l_rats(p_list(L, p_rat))}\n      {l_rats(p_list(U, p_rat))})")
                 o.n = n
+                o.origin = src
                 o.ops, o.kinds = [], []
             elif op == "known" and len(a) == 1:
                 o.ops.append((f".known {p_nat(a[0])}", _ans_status(ans) if ans in ERR_KINDS else f".bit {l_bool(ans)}", src))
@@ -364,7 +417,7 @@ def _tab_candidates(lines: list[str], answers: list[str], out: list[Candidate]) 
                 if x in objs:
                     objs[x] = _Obj(None, None)
     for name in list(objs):
-        flush(name, True)
+        flush(name)
 
 
 def _values_ok(n: int, vals: list) -> None:
@@ -525,7 +578,7 @@ def _shp_candidate(w: list[str], ans: str) -> Candidate:
     if op == "expl" and len(a) == 4:
         if n > MAX_N["shp.expl"]:
             raise Unsupported("n")
-        return Candidate("shp.expl", n, f"KC.expl {n} {known(n, a[1])} {vec(n, a[2])} {vec(n, a[3])} = {e_q(ans)}", weight=2)
+        return Candidate("shp.expl", n, f"KC.expl {n} {known(n, a[1])} {vec(n, a[2])} {vec(n, a[3])} = {e_q(ans)}")
     if op == "norms" and len(a) == 3:
         parts = ans.split(" ")
         if len(parts) != 3:
@@ -551,200 +604,449 @@ def candidates_from_batches(batches) -> list[Candidate]:
                 c = _bits_candidate(w, ans) if w[0] == "bits" else _shp_candidate(w, ans)
             except (Unsupported, ValueError, KeyError):
                 continue
-            c.source = [f"{ln[:400]}  ->  {ans[:400]}"]
+            c.source = [(ln, ans)]
+            if c.kind in _FLAT_COST:
+                c.cost = 0.1          # `n` is a bit length / list length there, the statement is cheap whatever it is
+            else:
+                c.cost = small_cost(c.n, 3.0 if c.kind in ("bits.issa", "bits.issam", "bits.supermod") or c.kind.startswith("shp.") else 1.0)
             out.append(c)
     return out
 
 
-def select(cands: list[Candidate], max_statements: int) -> list[Candidate]:
-    """a deterministic sample spread over the statement kinds (round robin over kinds, evenly spaced inside a kind,
-    larger n first so that the sample is not dominated by trivial sizes); duplicates removed"""
-    seen, uniq = set(), []
+def select(cands: list[Candidate], max_statements: int, budget_s: float = 240.0) -> list[Candidate]:
+    """A deterministic sample spread over the statement kinds: duplicates removed; round robin over the kinds (the
+    bound computers first, then the other `tab` / `shp` kinds, then `bits`); inside a kind the largest size first,
+    then evenly spread over the rest; a statement is skipped when its estimated kernel time no longer fits
+    into `budget_s` (so that a thorough run stays within its time limit whatever the batches contain)."""
+    seen, by_kind = set(), {}
     for c in cands:
         if c.prop not in seen:
             seen.add(c.prop)
-            uniq.append(c)
-    by_kind: dict[str, list[Candidate]] = {}
-    for c in uniq:
-        by_kind.setdefault(c.kind, []).append(c)
+            by_kind.setdefault(c.kind, []).append(c)
     order = []
     for kind in sorted(by_kind):
-        cs = by_kind[kind]
-        # evenly spaced positions of the list sorted by size (largest first), stable
-        cs = sorted(cs, key=lambda c: -c.n)
+        cs = sorted(by_kind[kind], key=lambda c: -c.n)           # stable: batch order inside one size
         m = len(cs)
-        picks, taken = [], set()
-        for j in range(m):
-            idx = (j * 7919) % m if m > 1 else 0
-            while idx in taken:
-                idx = (idx + 1) % m
-            taken.add(idx)
-            picks.append(cs[idx])
-        # first pick: the largest one
-        picks.sort(key=lambda c: 0 if c is cs[0] else 1)
-        order.append(picks)
-    # kinds that are expensive and central (the bound computers, Shapley) come first in every round
-    pri = lambda picks: (0 if picks[0].kind.startswith("tab.compute") else 1 if picks[0].kind.startswith(("shp", "tab")) else 2,  # noqa: E731
-                         picks[0].kind)
-    order.sort(key=pri)
+        step = next(s for s in (7919, 104729, 1299709) if math.gcd(s, m) == 1) if m > 1 else 1
+        order.append([cs[(j * step) % m] for j in range(m)])      # j = 0 is the largest one
+    order.sort(key=lambda p: (0 if p[0].kind.startswith("tab.compute") else 1 if p[0].kind.startswith(("shp", "tab")) else 2,
+                              p[0].kind))
     sel: list[Candidate] = []
+    left = budget_s
     r = 0
     while len(sel) < max_statements and any(r < len(p) for p in order):
         for p in order:
-            if r < len(p) and len(sel) < max_statements:
+            if r < len(p) and len(sel) < max_statements and p[r].cost <= left:
                 sel.append(p[r])
+                left -= p[r].cost
         r += 1
     return sel
 
 
 def statements_from_batches(batches) -> list[str]:
     """Lean statements (`theorem kc_i : … := by decide +kernel`) for every supported line / segment of the batches"""
-    return [c.theorem(i) for i, c in enumerate(candidates_from_batches(batches))]
+    return [c.theorem(f"kc_{i}") for i, c in enumerate(candidates_from_batches(batches))]
 
 
 # ----------------------------------------------------------------------------------------------
 # running Lean
 
-def render(cands: list[Candidate]) -> tuple[str, list[tuple[int, int]]]:
-    """the generated file and, per statement, its (first, last) line number"""
-    head = ["import ICG.KernelCheck.Basic",
-            "-- generated by harness/kernelcheck.py; do not edit, do not import",
-            "-- every statement: the Lean kernel evaluates the model definitions on an input the compiled driver was given",
-            "-- and finds the output the compiled driver printed",
-            "open ICG",
-            "set_option maxRecDepth 100000",
-            f"set_option maxHeartbeats {HEARTBEATS}",
-            ""]
-    lines = list(head)
-    spans = []
-    for i, c in enumerate(cands):
+HEADER = ["import ICG.KernelCheck.Basic",
+          "-- generated by harness/kernelcheck.py; do not edit, do not import",
+          "-- every statement: the Lean kernel evaluates the model definitions on an input the compiled driver was given",
+          "-- and finds the output the compiled driver printed (`decide +kernel`: no native code, no interpreter)",
+          "open ICG",
+          "set_option maxRecDepth 100000",
+          "",
+          "theorem kc_start : (2 : Nat) + 2 = 4 := by decide +kernel     -- progress marker: imports are loaded",
+          "#print axioms kc_start",
+          ""]
+
+
+def render(named: list[tuple[str, Candidate]], negate: bool = False) -> tuple[str, dict[str, tuple[int, int]]]:
+    """the generated file and, per statement name, its (first, last) line number; every statement is followed by its
+    `#print axioms`, which is also the progress marker (Lean checks the commands of a file one after the other)"""
+    lines = list(HEADER)
+    spans = {}
+    for name, c in named:
         first = len(lines) + 1
-        lines.extend(c.theorem(i).split("\n"))
-        spans.append((first, len(lines)))
+        lines.extend(c.theorem(name, negate).split("\n"))
+        lines.append(f"#print axioms {name}")
+        spans[name] = (first, len(lines))
         lines.append("")
-    for i in range(len(cands)):
-        lines.append(f"#print axioms kc_{i}")
-    return "\n".join(lines) + "\n", spans
+    return "\n".join(lines), spans
 
 
-def _lake(cmd: list[str], timeout: float) -> tuple[int, str, bool]:
+def _run_lean(args: list[str], timeout: float, stdin_text: str | None = None, markers: list[str] | None = None,
+              write: tuple[Path, str] | None = None):
+    """`lake env lean <args>` in its own process group (killed as a group on time-out: `lake env` does not exec),
+    output unbuffered through `stdbuf` when available so that progress survives a kill.
+    Returns (rc, output, timed_out, {marker: seconds since start when it appeared})."""
     import leanside
-    with leanside.Lock():
-        try:
-            p = subprocess.run(cmd, cwd=LEAN, capture_output=True, text=True, timeout=timeout)
-            return p.returncode, p.stdout + p.stderr, False
-        except subprocess.TimeoutExpired as e:
-            so = e.stdout or b""
-            se = e.stderr or b""
-            so = so.decode(errors="replace") if isinstance(so, bytes) else so
-            se = se.decode(errors="replace") if isinstance(se, bytes) else se
-            return 124, so + se, True
+    cmd = ["lake", "env", "lean", *args]
+    if shutil.which("stdbuf"):
+        cmd = ["stdbuf", "-o0", "-e0", *cmd]
+    seen: dict[str, float] = {}
+    with leanside.Lock(), tempfile.TemporaryFile() as fo, tempfile.TemporaryFile() as fi:
+        if write is not None:           # under the lock: concurrent checks share the one generated file
+            write[0].parent.mkdir(parents=True, exist_ok=True)
+            write[0].write_text(write[1])
+        if stdin_text is not None:
+            fi.write(stdin_text.encode())
+            fi.seek(0)
+        t0 = time.time()
+        p = subprocess.Popen(cmd, cwd=LEAN, stdin=fi if stdin_text is not None else subprocess.DEVNULL, stdout=fo,
+                             stderr=subprocess.STDOUT, start_new_session=True)
+        timed_out = False
+        pos = 0
+        buf = ""
+        while True:
+            try:
+                p.wait(timeout=0.1)
+                done = True
+            except subprocess.TimeoutExpired:
+                done = False
+            if markers:
+                fo.seek(pos)
+                chunk = fo.read()
+                pos += len(chunk)
+                buf += chunk.decode(errors="replace")
+                now = time.time() - t0
+                for m in markers:
+                    if m not in seen and f"'{m}'" in buf:
+                        seen[m] = now
+                buf = buf[-200:]
+            if done:
+                break
+            if time.time() - t0 > timeout:
+                timed_out = True
+                try:
+                    os.killpg(p.pid, signal.SIGKILL)
+                except ProcessLookupError:
+                    pass
+                p.wait()
+                break
+        fo.seek(0)
+        out = fo.read().decode(errors="replace")
+    return (124 if timed_out else p.returncode), out, timed_out, seen
 
 
-_MSG = re.compile(r"^(?:\S*Generated\.lean):(\d+):(\d+): (error|warning|info)?:? ?(.*)$")
-
-
-def parse_output(out: str, spans: list[tuple[int, int]], k: int) -> dict:
+def parse_output(out: str, spans: dict[str, tuple[int, int]]) -> dict:
     """split Lean's output into per-statement errors and `#print axioms` lines"""
-    errors: dict[int, str] = {}
+    errors: dict[str, str] = {}
     other: list[str] = []
     cur = None
     for ln in out.splitlines():
-        m = re.match(r"^\S*Generated\.lean:(\d+):(\d+): (error|warning)(?:\([^)]*\))?: (.*)$", ln)
+        m = re.match(r"^(?:\S*Generated\.lean|<stdin>|\S*\.lean):(\d+):(\d+): (error|warning)(?:\([^)]*\))?: (.*)$", ln)
         if m:
             line_no = int(m.group(1))
             cur = None
             if m.group(3) == "error":
-                for i, (a, b) in enumerate(spans):
+                for name, (a, b) in spans.items():
                     if a <= line_no <= b:
-                        cur = i
-                        errors[i] = (errors.get(i, "") + "\n" + m.group(4)).strip()
+                        cur = name
+                        errors[name] = (errors.get(name, "") + "\n" + m.group(4)).strip()
                         break
                 else:
                     other.append(ln)
             continue
-        if re.match(r"^\S*Generated\.lean:\d+:\d+: ", ln) or ln.startswith("'kc_"):
+        if re.match(r"^'[\w.]+' (depends on axioms|does not depend)", ln):
             cur = None
-        if cur is not None:
+        if cur is not None and len(errors[cur]) < 4000:
             errors[cur] += "\n" + ln
     flat = re.sub(r"\s+", " ", out)
-    axioms: dict[int, list[str] | None] = {}
-    for i in range(k):
-        m = re.search(rf"'kc_{i}' depends on axioms: \[([^\]]*)\]", flat)
+    axioms: dict[str, list[str]] = {}
+    for name in spans:
+        m = re.search(rf"'{re.escape(name)}' depends on axioms: \[([^\]]*)\]", flat)
         if m:
-            axioms[i] = [a.strip() for a in m.group(1).split(",") if a.strip()]
-        elif re.search(rf"'kc_{i}' does not depend on any axioms", flat):
-            axioms[i] = []
+            axioms[name] = [a.strip() for a in m.group(1).split(",") if a.strip()]
+        elif re.search(rf"'{re.escape(name)}' does not depend on any axioms", flat):
+            axioms[name] = []
     return {"errors": errors, "axioms": axioms, "other": other}
 
 
-def classify(msg: str) -> str:
-    m = msg.lower()
-    if "timeout" in m or "heartbeat" in m:
-        return "timeout"
-    if "maximum recursion depth" in m or "stack overflow" in m or "deep recursion" in m:
-        return "resource"
-    if "decide" in m and ("false" in m or "is false" in m or "did not reduce" in m or "failed" in m):
-        return "refuted"
-    return "error"
+def _short(msg: str, k: int = 700) -> str:
+    """Lean prints the whole stuck `Decidable` instance: keep the head (the proposition) only"""
+    cut = msg.find("Reduction got stuck")
+    if cut > 0:
+        msg = msg[:cut].rstrip()
+    return msg if len(msg) <= k else msg[:k] + " …"
 
 
 def check_candidates(cands: list[Candidate], timeout: float = 600.0) -> dict:
-    """write Generated.lean for exactly these statements, run Lean, classify every statement"""
+    """Write Generated.lean for exactly these statements (cheapest first), run Lean on it, classify every statement:
+
+      proved     the kernel accepted `kc_i`, and `kc_i` depends on no axiom beyond propext / Classical.choice / Quot.sound
+      refuted    the kernel rejected `kc_i` AND accepted `¬ (statement)` (second pass, `decide +kernel` again): the
+                 compiled driver printed something the model definitions do not evaluate to
+      undecided  rejected, but the negation was not accepted either (malformed statement, a definition the kernel cannot
+                 unfold, resource limit) — the Lean error is reported
+      timed_out  Lean was stopped by the wall clock while checking it (`running`) or before reaching it (`not reached`)
+    """
     t0 = time.time()
-    res = {"statements": len(cands), "proved": 0, "failed": [], "timed_out": [], "errors": [], "axioms": {},
-           "kinds": {}, "wall_s": 0.0, "file": GENERATED}
+    cands = sorted(cands, key=lambda c: c.cost)
+    named = [(f"kc_{i}", c) for i, c in enumerate(cands)]
+    res = {"statements": len(cands), "proved": 0, "refuted": 0, "failed": [], "timed_out": [], "errors": [],
+           "axioms": {}, "axioms_union": [], "n_failed": 0, "n_timed_out": 0, "by_kind": {}, "wall_s": 0.0,
+           "file": str(LEAN / GENERATED)}
     for c in cands:
-        res["kinds"][c.kind] = res["kinds"].get(c.kind, 0) + 1
+        a = res["by_kind"].setdefault(f"{c.kind} n={c.n}", {"statements": 0, "kernel_s": 0.0, "max_s": 0.0})
+        a["statements"] += 1
     if not cands:
         return res
-    rc, out, _ = _lake(["lake", "build", "ICG.KernelCheck.Basic"], max(60.0, timeout))
-    if rc != 0:
-        res["errors"].append({"what": "lake build ICG.KernelCheck.Basic failed", "log": out[-1500:]})
+    import leanside
+    with leanside.Lock():
+        p = subprocess.run(["lake", "build", "ICG.KernelCheck.Basic"], cwd=LEAN, capture_output=True, text=True)
+    if p.returncode != 0:
+        res["errors"].append({"what": "lake build ICG.KernelCheck.Basic failed", "log": (p.stdout + p.stderr)[-1500:]})
         res["wall_s"] = round(time.time() - t0, 2)
         return res
-    text, spans = render(cands)
-    (LEAN / "ICG" / "KernelCheck").mkdir(parents=True, exist_ok=True)
-    (LEAN / GENERATED).write_text(text)
-    rc, out, wall_to = _lake(["lake", "env", "lean", GENERATED], timeout)
-    po = parse_output(out, spans, len(cands))
-    bad_ax = []
-    for i, c in enumerate(cands):
-        if i in po["errors"]:
-            msg = po["errors"][i]
-            cls = classify(msg)
-            entry = {"statement": f"kc_{i}", "kind": c.kind, "n": c.n, "verdict": cls, "lean_error": msg[:1200],
-                     "source": c.source[-6:], "lean": c.theorem(i)[:3000]}
-            (res["timed_out"] if cls == "timeout" else res["failed"]).append(entry)
-        elif i in po["axioms"]:
-            ax = po["axioms"][i]
+    text, spans = render(named)
+    rc, out, wall_to, seen = _run_lean([GENERATED], max(5.0, timeout - (time.time() - t0)),
+                                       markers=["kc_start"] + [n for n, _ in named], write=(LEAN / GENERATED, text))
+    po = parse_output(out, spans)
+    # per-statement kernel time: distance between consecutive progress markers
+    prev = "kc_start" if "kc_start" in seen else None
+    for name, c in named:
+        if name in seen:
+            dt = seen[name] - (seen[prev] if prev else 0.0)
+            a = res["by_kind"][f"{c.kind} n={c.n}"]
+            a["kernel_s"] = round(a["kernel_s"] + dt, 2)
+            a["max_s"] = round(max(a["max_s"], dt), 2)
+            prev = name
+    rejected: list[tuple[str, Candidate]] = []
+    failed, timed = [], []
+    running_marked = False
+    for name, c in named:
+        entry = {"statement": name, "kind": c.kind, "n": c.n, "source": c.shown(), "lean": c.theorem(name)[:2500]}
+        if name in po["errors"]:
+            entry["lean_error"] = _short(po["errors"][name])
+            entry["verdict"] = "undecided"
+            failed.append(entry)
+            rejected.append((name, c))
+        elif name in po["axioms"]:
+            ax = po["axioms"][name]
             if set(ax) <= STD_AXIOMS:
                 res["proved"] += 1
             else:
-                bad_ax.append(i)
-                res["failed"].append({"statement": f"kc_{i}", "kind": c.kind, "n": c.n, "verdict": "axioms",
-                                      "lean_error": f"depends on {ax}", "source": c.source[-6:]})
+                entry["verdict"] = "axioms"
+                entry["lean_error"] = f"depends on axioms {ax}"
+                failed.append(entry)
         else:
-            # neither an error nor its `#print axioms` line: Lean was stopped (wall clock) before it got there
-            res["timed_out"].append({"statement": f"kc_{i}", "kind": c.kind, "n": c.n, "verdict": "wall-clock",
-                                     "lean_error": f"not finished within {timeout} s", "source": c.source[-6:]})
-    res["axioms"] = {f"kc_{i}": po["axioms"][i] for i in sorted(po["axioms"])[:5]}
-    res["axioms_union"] = sorted({a for v in po["axioms"].values() for a in v})
+            entry["verdict"] = "timed out (not reached)" if running_marked else "timed out (running when the time was up)"
+            entry["lean_error"] = f"Lean was stopped after {timeout} s" if wall_to else f"no result (lean rc={rc})"
+            running_marked = True
+            timed.append(entry)
+    # second pass: is the negation of a rejected statement a kernel theorem?  (refuted vs. merely not evaluated)
+    if rejected:
+        neg = [(f"{name}_refuted", c) for name, c in rejected]
+        ntext, nspans = render(neg, negate=True)
+        budget = max(30.0, min(300.0, timeout - (time.time() - t0)))
+        _, nout, _, _ = _run_lean(["--stdin"], budget, stdin_text=ntext)
+        npo = parse_output(nout, nspans)
+        for entry in failed:
+            nn = entry["statement"] + "_refuted"
+            if nn in npo["axioms"] and nn not in npo["errors"] and set(npo["axioms"][nn]) <= STD_AXIOMS:
+                entry["verdict"] = "refuted"
+                entry["refutation"] = f"the kernel accepted `theorem {nn} : ¬ (…) := by decide +kernel` (axioms: {npo['axioms'][nn]})"
+                res["refuted"] += 1
+            elif nn in npo["errors"]:
+                entry["negation_error"] = _short(npo["errors"][nn], 300)
+    ax_all = [po["axioms"][n] for n, _ in named if n in po["axioms"] and n not in po["errors"]]
+    res["axioms"] = {n: po["axioms"][n] for n, _ in named[:5] if n in po["axioms"]}
+    res["axioms_union"] = sorted({a for v in ax_all for a in v})
     if po["other"]:
         res["errors"].append({"what": "Lean messages outside the statements", "log": "\n".join(po["other"])[:1500]})
     if rc not in (0, 1) and not wall_to:
         res["errors"].append({"what": f"lean exited with {rc}", "log": out[-1500:]})
-    res["refuted"] = sum(1 for f in res["failed"] if f["verdict"] == "refuted")
-    res["failed"] = res["failed"][:5]
-    res["timed_out"] = res["timed_out"][:5]
+    res["n_failed"], res["n_timed_out"] = len(failed), len(timed)
+    res["failed"] = failed[:5]
+    res["timed_out"] = timed[:5]
     res["wall_s"] = round(time.time() - t0, 2)
     return res
 
 
 def check(batches, max_statements: int = 40, timeout: float = 600.0) -> dict:
-    """Sample ≤ `max_statements` statements from the batches and have the kernel decide them."""
+    """Sample ≤ `max_statements` statements from the recorded driver batches (estimated kernel time ≤ timeout / 2,
+    at most 240 s) and have the kernel decide them.  `ok` ⇔ nothing was refuted, left undecided or malformed."""
     cands = candidates_from_batches(batches)
-    sel = select(cands, max_statements)
+    sel = select(cands, max_statements, budget_s=min(240.0, timeout / 2))
     res = check_candidates(sel, timeout)
     res["candidates"] = len(cands)
+    res["ok"] = not res["failed"] and not res["errors"]
     return res
+
+
+# ----------------------------------------------------------------------------------------------
+# self-test
+
+def _own_lines(rnd) -> list[str]:
+    """a few hundred protocol lines over the three supported domains (own generator: does not need /repo)"""
+    from common import nlist, rlist, rs
+    L: list[str] = []
+    fr = lambda a, b: Fraction(rnd.randint(a, b), rnd.choice([1, 1, 2, 3, 4, 8]))      # noqa: E731
+    k = 0
+    for n in (1, 2, 3, 3, 3, 4, 4, 4, 4, 5):
+        for comp in ("sa", "sac", f"sam:{rnd.randint(0, 3)}"):
+            N = 2 ** n
+            k += 1
+            g = f"g{k}"
+            v = [Fraction(0)] + [Fraction(bin(c).count("1") ** 2 * 4) + fr(0, 6) for c in range(1, N)]
+            must = {0, N - 1} | {1 << i for i in range(n)}
+            K = sorted(must | {c for c in range(N) if rnd.random() < 0.35})
+            if rnd.random() < 0.15:                         # a precondition failure: the computers raise
+                K = sorted(set(K) - {rnd.choice(sorted(must))})
+            L.append(f"tab new {g} {n}")
+            if rnd.random() < 0.5:                          # stale bounds everywhere first
+                L.append(f"tab bounds {g} lo none {rlist([fr(-9, 9) for _ in range(N)])}")
+                L.append(f"tab bounds {g} hi none {rlist([fr(-9, 9) for _ in range(N)])}")
+            L.append(f"tab setvalues {g} {nlist(K)} {rlist([v[c] for c in K])}")
+            L.append(f"tab compute {g} {comp}")
+            L.append(f"tab dump {g}")
+            if n <= 4:
+                c = rnd.randrange(N)
+                L.append(f"tab reveal {g} {c} {rs(v[c])}")   # err:assert when already known
+                L.append(f"tab getvalue {g} {c}")
+                L.append(f"tab compute {g} {comp}")
+                L.append(f"tab getknowns {g}")
+                L.append(f"tab unreveal {g} {c}")
+                L.append(f"tab set {g} {N + 3} 1")            # err:index
+                L.append(f"tab getvalues {g} {nlist(K[:3])}")
+                L.append(f"tab dump {g}")
+    for n in (1, 2, 3, 4, 5, 6):
+        N = 2 ** n
+        for _ in range(2):
+            v = [Fraction(0)] + [fr(-20, 40) for _ in range(N - 1)]
+            lo = [Fraction(0)] + [fr(-20, 40) for _ in range(N - 1)]
+            hi = [a + abs(fr(0, 30)) for a in lo]
+            kn = "".join("1" if (c in (0, N - 1) or rnd.random() < 0.6) else "0" for c in range(N))
+            i = rnd.randrange(n)
+            L += [f"shp contrib {n}", f"shp shapley {n} {rlist(v)}", f"shp shapley1 {n} {i} {rlist(v)}",
+                  f"shp tshapley {n} {'1' * N} {rlist(v)}", f"shp tshapley {n} {kn} {rlist(v)}",
+                  f"shp tshapley1 {n} {i} {kn} {rlist(v)}", f"shp maxgain {n} {i} {rlist(lo)} {rlist(hi)}",
+                  f"shp expl {n} {kn} {rlist(lo)} {rlist(hi)}", f"shp expl {n} {'1' * N} {rlist(lo)} {rlist(hi)}",
+                  f"shp norms {n} {rlist(lo)} {rlist(hi)}"]
+    rt = rs(Fraction(1e-9))
+    for n in (1, 2, 3, 4, 5, 6):
+        N = 2 ** n
+        for _ in range(2):
+            c, d, p = rnd.randrange(N), rnd.randrange(N), rnd.randrange(n)
+            v = [Fraction(0)] + [Fraction(bin(x).count("1") ** 2) + Fraction(rnd.randint(0, 1), 2) for x in range(1, N)]
+            L += [f"bits size {c}", f"bits players {c}", f"bits from {nlist([p, rnd.randrange(n), p])}", f"bits single {p}",
+                  f"bits grand {n}", f"bits all {n}", f"bits and {c} {d}", f"bits or {c} {d}", f"bits sub {c} {d}",
+                  f"bits contains {c} {d}", f"bits eq {c} {d}", f"bits disjoint {c} {d}", f"bits andp {c} {p}",
+                  f"bits orp {c} {p}", f"bits subp {c} {p}", f"bits addp {c} {p}", f"bits hasplayer {c} {p}",
+                  f"bits inverted {c} {n}", f"bits subobj {c}", f"bits superobj {c} {n}", f"bits subid {c} {n}",
+                  f"bits superid {c} {n}", f"bits subid {N + c} {n}", f"bits playersid {c} {n}", f"bits sizeid {N + c} {n}",
+                  f"bits sizeid {c} {n}", f"bits struct {n} {c}", f"bits sorted {n}", f"bits minimal {n}",
+                  f"bits exclude {c} {nlist(range(N))}", f"bits issa {n} {rt} 0 {rlist(v)}", f"bits ismono {n} {rlist(v)}",
+                  f"bits issam {n} {rt} 0 {rlist(v)}", f"bits supermod {n} 0 {rlist(v)}"]
+    return L
+
+
+def _flip_digit(ans: str) -> str:
+    """change the last decimal digit of an answer line"""
+    for i in range(len(ans) - 1, -1, -1):
+        if ans[i].isdigit():
+            return ans[:i] + str((int(ans[i]) + 1) % 10) + ans[i + 1:]
+    raise ValueError("no digit to flip")
+
+
+def _summary(tag: str, r: dict) -> None:
+    print(f"[{tag}] statements={r['statements']} proved={r['proved']} refuted={r['refuted']} "
+          f"failed={r.get('n_failed', 0)} timed_out={r.get('n_timed_out', 0)} errors={len(r['errors'])} wall={r['wall_s']} s "
+          f"axioms={r.get('axioms_union')}")
+    for key in sorted(r["by_kind"]):
+        a = r["by_kind"][key]
+        print(f"    {key:24s} {a['statements']:3d} statement(s)  kernel {a['kernel_s']:6.2f} s  (max {a['max_s']:.2f} s)")
+    for f in r["failed"]:
+        print(f"    FAILED {f['statement']} [{f['kind']} n={f['n']}] verdict={f['verdict']}")
+        for s_ in f["source"]:
+            print(f"        {s_[:200]}")
+        print("        lean: " + f.get("lean_error", "").replace("\n", "\n              ")[:900])
+        if f.get("refutation"):
+            print("        " + f["refutation"])
+    for f in r["timed_out"]:
+        print(f"    TIMED OUT {f['statement']} [{f['kind']} n={f['n']}] {f['verdict']}")
+    for e in r["errors"]:
+        print("    ERROR", e)
+
+
+def main(argv: list[str]) -> int:
+    import argparse
+    import importlib
+    import random
+    ap = argparse.ArgumentParser(description="self-test of the kernel cross-check")
+    ap.add_argument("--max", type=int, default=40, help="statements per check")
+    ap.add_argument("--timeout", type=float, default=600.0)
+    ap.add_argument("--no-streams", action="store_true", help="own generator only (do not import the correspondence streams)")
+    ap.add_argument("--seed", type=int, default=common.SEED)
+    args = ap.parse_args(argv)
+    rnd = random.Random(f"kernelcheck:{args.seed}")
+    bad = 0
+
+    # 1. own generator -> compiled driver -> statements -> kernel
+    lines = _own_lines(rnd)
+    common.DRIVER_SAMPLES.clear()
+    outs = common.run_driver(lines)
+    own = list(common.DRIVER_SAMPLES)
+    assert own and own[0][1] == outs[:3000]
+    nbad = sum(1 for o in outs if o == "bad-op")
+    cands = candidates_from_batches(own)
+    print(f"own generator: {len(lines)} protocol lines through {common.DRIVER_EXE} ({nbad} bad-op), "
+          f"{len(cands)} statements can be made, {len({c.kind for c in cands})} kinds")
+    r = check(own, args.max, args.timeout)
+    _summary("own", r)
+    bad += (not r["ok"]) or r["proved"] != r["statements"] or r["statements"] == 0
+
+    # 2. the correspondence streams' own batches, as the thorough tier will record them
+    if not args.no_streams:
+        for mod, arg in (("corr_bounds", "C02"), ("corr_bits", "C18"), ("corr_shapley", "C05")):
+            try:
+                m = importlib.import_module(mod)
+                common.DRIVER_SAMPLES.clear()
+                sr = m.run("quick", common.Budget(20), common.rng(f"kernelcheck:{mod}"), arg)
+            except Exception as e:      # noqa: BLE001
+                print(f"[{mod}] stream not run: {type(e).__name__}: {e}")
+                continue
+            batches = list(common.DRIVER_SAMPLES)
+            print(f"{mod}({arg}): {sr.evaluations} cases, {len(sr.disagreements)} disagreements, "
+                  f"{len(batches)} recorded batch(es), {sum(len(b[0]) for b in batches)} lines")
+            r = check(batches, args.max, args.timeout)
+            _summary(mod, r)
+            bad += (not r["ok"]) or r["proved"] != r["statements"] or r["statements"] == 0
+
+    # 3. not vacuous: flip one digit of an observed answer -> the kernel must refute exactly that statement
+    picks = {}
+    for c in cands:
+        if c.kind not in ("tab.compute.sa", "tab.compute.sac", "tab.compute.sam", "shp.shapley", "shp.expl", "bits.subobj",
+                          "bits.struct") or c.kind in picks or c.replay() is None or c.n not in (3, 4):
+            continue
+        if "err:" in c.source[-1][1] or not c.source[-1][0].startswith(("tab dump", "shp", "bits")):
+            continue
+        picks[c.kind] = c
+    corrupted, originals = [], []
+    for fam, c in sorted(picks.items()):
+        ls, an = c.replay()
+        j = len(an) - 1
+        an2 = list(an)
+        an2[j] = _flip_digit(an[j])
+        cc = [x for x in candidates_from_batches([(ls, an2)]) if x.kind == c.kind]
+        if len(cc) != 1:
+            print(f"corruption demo: could not rebuild {c.kind}")
+            bad += 1
+            continue
+        print(f"corrupting [{c.kind} n={c.n}]  {ls[j][:120]}\n     observed: {an[j][:160]}\n     flipped : {an2[j][:160]}")
+        corrupted.append(cc[0])
+        originals.append(c)
+    r = check_candidates(originals + corrupted, args.timeout)
+    _summary("corrupted", r)
+    ok_demo = r["proved"] == len(originals) and r["refuted"] == len(corrupted) and r["n_failed"] == len(corrupted) and corrupted
+    print("corruption demo:", "every flipped answer was refuted by the kernel, every original proved" if ok_demo else "UNEXPECTED")
+    bad += not ok_demo
+    print("self-test", "FAILED" if bad else "passed")
+    return 1 if bad else 0
+
+
+if __name__ == "__main__":
+    sys.exit(main(sys.argv[1:]))
